@@ -175,6 +175,39 @@ func vhC13T() {
 		want[i] = shape[p[i]]
 	}
 	vAssert(vShapeEq(want, []int(t.Shape())), "permuted-shape")
+	if vCfgInt("twice") != 1 {
+		return
+	}
+	// a second lazy transpose composes with the pending one: the shape is the permutation applied twice
+	sq := vSymAxes("q", rank)
+	var calc2 AP
+	var cerr2, derr2 error
+	cp2 := vCatch(func() { calc2, _, cerr2 = calcAP.T(vCopyInts(sq)...) })
+	dp2 := vCatch(func() { derr2 = t.T(sq...) })
+	q := vConcAxes(sq)
+	if !vIsPerm(q, rank) {
+		return
+	}
+	vAssert(!cp2 && !dp2, "no-panic-2")
+	if cp2 || dp2 {
+		return
+	}
+	if cerr2 != nil {
+		if _, ok := cerr2.(NoOpError); ok {
+			cerr2 = nil
+			calc2 = calcAP
+		}
+	}
+	vAssert((cerr2 != nil) == (derr2 != nil), "err-iff-err-2")
+	if cerr2 != nil || derr2 != nil {
+		return
+	}
+	want2 := make([]int, rank)
+	for i := range q {
+		want2[i] = want[q[i]]
+	}
+	vAssert(vShapeEq([]int(calc2.Shape()), []int(t.Shape())), "calc-eq-exec-2")
+	vAssert(vShapeEq(want2, []int(t.Shape())), "permuted-twice-shape")
 }
 
 // vhC13Reshape: reshape to a factorisation of the size after a layout recipe.
